@@ -359,3 +359,44 @@ theorem combineAdj_sum {comb : α → α → Option α} (w : α → Nat)
   | cons x xs => simpa [combineAdj] using combineGo_sum w hw xs x
 
 end KV.Sort
+
+namespace KV.Sort
+open List
+variable {α : Type}
+
+/-- a freshly pushed entry (`Entry(base, fd, offset, amount, buf_size)`) views the whole run -/
+theorem bufEntry_read {cap : Nat} (hcap : 0 < cap) (run : List α) :
+    match BufEntry.read cap run with
+    | none => run = []
+    | some e => e.buf ≠ [] ∧ e.view = run := by
+  cases run with
+  | nil => simp [BufEntry.read]
+  | cons x xs =>
+    obtain ⟨c, rfl⟩ : ∃ c, cap = c + 1 := ⟨cap - 1, by omega⟩
+    simp [BufEntry.read, BufEntry.view]
+
+/-- **buffered entries refine `(current, rest)`**: one `Increment` (with refill from the file when
+the buffer is exhausted) moves the view from `x :: rest` to `rest`, reports exhaustion exactly
+when `rest = []`, and never leaves an empty buffer behind. -/
+theorem bufEntry_step {cap : Nat} (hcap : 0 < cap) (e : BufEntry α) (x : α) (rest : List α)
+    (hne : e.buf ≠ []) (hv : e.view = x :: rest) :
+    match e.increment cap with
+    | none => rest = []
+    | some e' => e'.buf ≠ [] ∧ e'.view = rest := by
+  obtain ⟨buf, file⟩ := e
+  cases buf with
+  | nil => exact absurd rfl hne
+  | cons b bs =>
+    simp only [BufEntry.view, cons_append, cons.injEq] at hv
+    cases bs with
+    | nil =>
+      simp only [BufEntry.increment, drop_succ_cons, drop_zero]
+      simp only [nil_append] at hv
+      have := bufEntry_read hcap file
+      rw [hv.2] at this ⊢
+      exact this
+    | cons b2 bs2 =>
+      simp only [BufEntry.increment, drop_succ_cons, drop_zero]
+      exact ⟨by simp, by simpa [BufEntry.view] using hv.2⟩
+
+end KV.Sort
